@@ -107,7 +107,7 @@ func (c *Ctx) expectNF(f *FC, rule, name string, accept []string, why string) bo
 	ok := false
 	nf = f.canon(nf)
 	for i := range accept {
-		accept[i] = f.canon(accept[i])
+		accept[i] = f.canonSpec(accept[i])
 	}
 	for _, a := range accept {
 		if specRegexp(a).MatchString(nf) {
@@ -120,6 +120,17 @@ func (c *Ctx) expectNF(f *FC, rule, name string, accept []string, why string) bo
 				if specRegexp(a).MatchString(f.canon(nf2)) {
 					c.R.OK(rule, name, "closed-form", c.Pos(f.M.Fset, fn.Decl.Pos()), why+" (after inlining the helper(s) added since the review: "+strings.Join(helpers, ", ")+"): "+nf2)
 					return true
+				}
+			}
+		}
+	}
+	if !ok {
+		// a tiny helper with its parameters reordered: every call of it is expanded into its caller's form, where
+		// an argument list that was not adapted shows
+		if _, isTiny := f.tinyHelpers()[name]; isTiny {
+			for _, a := range accept {
+				if equalUpToParamOrder(nf, a, len(fn.Params)) {
+					return c.R.Check(true, rule, name, "closed-form", c.Pos(f.M.Fset, fn.Decl.Pos()), why+" (parameters reordered; the call sites are compared in the callers' forms): "+nf, "")
 				}
 			}
 		}
